@@ -14,8 +14,16 @@ Lemma cfg_ok_reconf c x : cfg_ok c -> cfg_ok (reconf c x).
 Proof. destruct x; intros H; exact H. Qed.
 
 (* the setters do not touch the exchange state, and keep fees, liquidity model and lending conditions *)
-Lemma reconf_state cs x : match x with XOp _ => True | _ => snd (fst (xstep cs x)) = snd cs end.
+Lemma reconf_state cs x : match x with XOp _ | XTick _ => True | _ => snd (fst (xstep cs x)) = snd cs end.
 Proof. destruct x; cbn; auto. Qed.
+
+(* a clock tick moves the clock and nothing else: account, orders, reservations, loans, prices and events stay *)
+Lemma tick_state cs w :
+  let s := snd cs in let s' := snd (fst (xstep cs (XTick w))) in
+  (fst (fst (xstep cs (XTick w))) = fst cs) /\ (s_now s' = Some w) /\
+  (s_acct s' = s_acct s) /\ (s_orders s' = s_orders s) /\ (s_holds s' = s_holds s) /\ (s_loans s' = s_loans s) /\
+  (s_close s' = s_close s) /\ (s_events s' = s_events s).
+Proof. cbn. repeat split; reflexivity. Qed.
 
 Lemma reconf_keeps c x : c_fee (reconf c x) = c_fee c /\ c_liq (reconf c x) = c_liq c /\ c_lend (reconf c x) = c_lend c
                          /\ c_default_pair (reconf c x) = c_default_pair c.
@@ -37,7 +45,7 @@ Lemma xstep_invariants K cs x :
   let cs' := fst (xstep cs x) in cfg_ok (fst cs') /\ WF (snd cs') /\ all_inv K (snd cs') /\ frozen (snd cs) (snd cs').
 Proof.
   destruct cs as [c s]. cbn [fst snd]. intros Hc Hx Hw Hi.
-  destruct x as [o|y p|pr bq]; cbn [xstep fst snd].
+  destruct x as [o|y p|pr bq|w]; cbn [xstep fst snd].
   - destruct (step c s o) as [s' rep] eqn:E. cbn [fst snd].
     assert (Es : s' = run c s [o]) by (unfold run; cbn [fold_left]; rewrite E; reflexivity).
     assert (Ho : ops_ok [o]) by (constructor; [exact Hx | constructor]).
@@ -46,6 +54,7 @@ Proof.
     rewrite <- Es in W, I, F. split; [|split; [|split]]; assumption.
   - split; [|split; [|split]]; try assumption. intros i o Hn _; exact Hn.
   - split; [|split; [|split]]; try assumption. intros i o Hn _; exact Hn.
+  - split; [exact Hc|]. split; [exact Hw|]. split; [exact Hi|]. intros i o Hn _; exact Hn.
 Qed.
 
 Lemma frozen_trans s1 s2 s3 : frozen s1 s2 -> frozen s2 s3 -> frozen s1 s3.
